@@ -6,7 +6,8 @@
 //!
 //! What the generator deliberately does NOT produce, because the statement is silent about it and
 //! an implementation may reasonably decide either way: user names or metadata values that differ
-//! from a configured one only by letter case; invalid patterns or UUIDs (construction fails, no
+//! from a configured *listed name* only by letter case (patterns are regular expressions and case
+//! sensitive by definition: a few names exist only to be told apart by them); invalid patterns or UUIDs (construction fails, no
 //! player is routed); more than one spelling of "almost numeric" counts within one scenario
 //! (`+5`, ` 5`, `5.0`: see oracle R10).
 
@@ -17,6 +18,7 @@ use vp_common::Rng;
 pub const NAMES: &[&str] = &[
     "Alice", "Bob", "Carol", "Dave_1", "Notch", "xX_Pro_Xx", "Al", "Alice_2",
 ];
+pub const PATTERN_ONLY_NAMES: &[&str] = &["alfred", "zed", "BOBBY", "cARL_9", "Zoe"];
 pub const NAME_PATTERNS: &[&str] = &[
     "^Al", "^Alice$", "_", "^[A-C]", "\\d$", "^$", "", "(?i)^bob$", ".*", "^Z", "o", "^.{2}$",
 ];
@@ -261,6 +263,10 @@ fn gen_probe(rng: &mut Rng, filters: &[FilterSpec], strategy: &StrategySpec, len
     }
     let player_name = if !listed_names.is_empty() && rng.chance(1, 3) {
         rng.pick(&listed_names).to_string()
+    } else if rng.chance(1, 6) {
+        // names that no list names (in any letter case) but that the *patterns* tell apart by case:
+        // a pattern is a regular expression, and those are case sensitive unless they say otherwise
+        rng.pick(PATTERN_ONLY_NAMES).to_string()
     } else {
         rng.pick(NAMES).to_string()
     };
